@@ -56,6 +56,16 @@ CHECKS = {
    text="Wrappers.tla models the string wrappers as Core o Sized o HexDecode o Strip0x on the bytes of the argument strings; MCWrappers checks the hex codec facts for every byte value and every non-hex character. Conformance: the six pure wrappers are called on real keys/signatures ({valid, wrong message, flipped signature}) in every rendering {lower, upper} x {bare, 0x} and 13 malformed renderings per argument; each event carries what the harness fed to the core function and both results; TLC (TraceWrappers.tla) decodes the argument strings itself, checks the harness fed the core exactly that, and requires wrapper = core for exact-length hex and false/\"\" for non-hex. Finding F2 (xmssjs wrappers did not strip 0x) was found this way and repaired by a fix: commit.",
    note="The js.Object-based constructors/methods need a JavaScript runtime and are not covered; addresses are compared as bytes (optional 0x removed).",
    technique="explicit TLA+ spec of the wrapper composition + TLC; trace validation of wrapper-vs-core calls"),
+ "C03": dict(
+   level="model_checking", design_ref="6 (C03), 3.9, 3.10",
+   text="DilithiumSign.tla is the rejection loop of cryptoSignSignature as a program-counter machine (four rejecting exits in code order, nonce incremented once per iteration, fresh nonce blocks); TLC checks that whatever it accepts satisfies what the verifier needs (AcceptedVerifies), relying on the coefficient-wise hint lemma UseHint(MakeHint(w0-cs2+ct0, w1), w-cs2+ct0) = w1 under the two low-bit bounds, which TLC checks on DilithiumMath.tla for boundary-focused operand sets at the real modulus. Conformance: seeded keys x messages (empty, 1, 7, 135..137, 4096, random lengths, 1 MiB) are signed and sealed with a hook logging every loop iteration (exit, nonce, exact norms); TLC (TraceDilithiumSign.tla) requires Verify true for the message and false for another message/key, Open(Seal(m)) = m, Extract* equalities, and (as drift) that each run is a behaviour of the machine for the logged norms.",
+   note="Inputs are sampled: the data-dependent loop path cannot be enumerated; the rare exits (ct0, hint count) may be unseen in a quick run and are reported in the evidence.",
+   technique="explicit TLA+ spec of the signing loop + TLC; trace validation of hooked signing runs of the real code"),
+ "C05": dict(
+   level="model_checking", design_ref="6 (C05), 3.9",
+   text="HintCodec.tla is the concrete encoder/decoder of the hint section with parameters as constants; TLC checks exhaustively at (K,OMEGA,N)=(3,4,6), over all 6^7 byte strings and all hint vectors: Decode accepts iff HintCanonical, accepted strings re-encode to themselves (non-malleable), Decode(Encode(h)) = h, every read stays inside the section. Conformance at the real parameters: genuine signatures under all signature-bit flips (quick: c, hint section, sampled z bits), public-key bit flips, wrong message, other key; hint re-encodings that denote the SAME vector non-canonically (swapped indices, non-zero padding, count tricks) and other corruptions; and signatures produced with the secret key by a signer living in the hook file that skips the z-norm test (everything consistent except ||z|| >= GAMMA1-BETA). TLC (TraceDilithiumVerify.tla) computes canonicity from the raw hint bytes itself and allows Verify = true only for the unmodified triple with canonical hints and in-range z; Open must agree with Verify.",
+   note="Rejection of flipped z/c/pk bits rests on SHAKE-256 collision freeness; signatures with only a skipped low-bits test have no specified verdict (recorded only).",
+   technique="explicit TLA+ spec of the hint codec (exhaustive at small parameters) + trace validation of the real verifier on mutated and specially signed inputs"),
 }
 
 NOT_YET = {
